@@ -101,7 +101,12 @@ def sources(src: int, e0: int, e1: int, e2: int, e3: int, v0: int, v1: int, v2: 
             es = [e0, e1, e2, e3][:n]
             source = [hx.pick(_ELEMS, e) for e in es]
             want = list(source)
-            env.add_cell_component("c", source)
+            if hx.P.get('alias'):
+                import warnings
+                warnings.simplefilter("ignore")
+                env.addCellComponent("c", source)      # deprecated alias of add_cell_component
+            else:
+                env.add_cell_component("c", source)
             source[mut % n] = "changed later"          # later changes to the caller's list do not show through
             source.append("extra")
         else:                                           # a numpy array
@@ -264,7 +269,8 @@ def obligations(tier):
     worlds = ["line", "grid", "cube"] if tier == "quick" else ["line", "grid", "cube", "flat_mid", "point"]
     obs = [
         X("sources", sources, parts=[{"world": w, "src": sk} for w in worlds for sk in (0, 2, 3, 4)] +
-          [{"world": w, "src": 1, "mut": mu} for w in worlds for mu in ((0, 2) if tier == "quick" else (0, 1, 2, 3))],
+          [{"world": w, "src": 1, "mut": mu} for w in worlds for mu in ((0, 2) if tier == "quick" else (0, 1, 2, 3))] +
+          [{"world": "line", "src": 1, "mut": 1, "alias": True}],
           labels=("callable", "list", "ndarray", "constant", "nested"), labels_for=lambda p: (("callable", "list", "ndarray", "constant", "nested")[p["src"]],),
           timeout=1200, encoded=enc),
         X("history", history, parts=[{"world": w, "k": k} for w in (("line", "grid") if tier == "quick" else worlds)
